@@ -184,6 +184,12 @@ def cases_for(tier):
                     out.append({"route": "graph", "n": n, "edges": es, "seg": seg})
                 if var == 0 and n <= 3:
                     out.append({"route": "graph", "n": n, "edges": es, "seg": False, "aslist": True})
+    # structured mid-sized graphs (cycles sharing a vertex, degree-4 trees, isolated vertices, cubic graphs), all 2^n patterns
+    for name, n, es in graphref.zoo():
+        if tier == "quick" and n > 7:
+            continue
+        for seg in (False, True):
+            out.append({"route": "graph", "n": n, "edges": es, "seg": seg, "name": name})
     maxcells = 9 if tier == "quick" else 12
     shapes = graphref.grid_shapes(maxcells)
     if tier != "quick":
@@ -196,7 +202,8 @@ def cases_for(tier):
     big = [(3, 5), (5, 3), (4, 4), (4, 5), (5, 4)] if tier == "quick" else [(3, 5), (5, 3), (4, 4), (4, 5), (5, 4), (3, 7), (7, 3), (4, 6), (6, 4), (5, 5), (2, 9), (9, 2)]
     for h, w in big:
         out.append({"route": "grid", "shape": [h, w], "seg": True, "family": "independent"})
-    for h, w in ([(6, 6), (7, 7), (8, 8), (6, 9)] if tier == "quick" else [(6, 6), (7, 7), (8, 8), (6, 9), (9, 6), (10, 10), (12, 12)]):
+    # (wide and tall boards as well: a zig-zag chain in the middle rows of a 4xN board is far longer than either side of a square one)
+    for h, w in ([(6, 6), (7, 7), (8, 8), (6, 9), (4, 10), (10, 4), (4, 12), (5, 11)] if tier == "quick" else [(6, 6), (7, 7), (8, 8), (6, 9), (9, 6), (10, 10), (12, 12), (4, 10), (10, 4), (4, 12), (12, 4), (5, 11), (11, 5), (4, 16), (16, 4), (5, 16), (16, 5), (5, 20)]):
         out.append({"route": "grid", "shape": [h, w], "seg": True, "family": "chains"})
     return out
 
